@@ -242,6 +242,9 @@ def gen_cases(ctx, rng):
             # names with characters that mean something in URLs (a literal '+', '.', '-', '~', ':', '@' in a path segment stands for itself)
             g.names = [rng.choice(["a+b", "redis+sentinel", "x.y-z", "n~1", "u:v", "p@q"]), rng.choice(["b", "db+1", "c+"])]
             g.special_names = True
+        if i % 3 == 1:
+            # two spellings of one upstream endpoint: what is written is what is read, letter for letter
+            g.ups = ["127.0.0.1:9", "localhost:9"]
         reqs = []
         for _ in range(rng.range(5, 40)):
             reqs.append(g.any(["t1", "t2"]))
@@ -363,6 +366,16 @@ def oracle(case, resps):
                 elif q["method"] == "DELETE":
                     if st != 204 or any(t["name"] == segs[3] for t in now.get(segs[1], {"toxics": []})["toxics"]):
                         return (i, "DELETE of an existing toxic answered %d / toxic still listed" % st)
+                elif q["method"] in ("POST", "PATCH") and st == 200:
+                    # an update sets attributes and toxicity: the toxic answered and listed afterwards is the same toxic (name, type,
+                    # stream), whatever else the body carried
+                    old_t = have[segs[3]]
+                    ident = lambda t: (t["name"], t["type"], t["stream"])
+                    if pl[0] != "toxic" or ident(pl[1]) != ident(old_t):
+                        return (i, "update of toxic %r answered 200 with %s, the toxic is %s (name, type, stream)" % (segs[3], ident(pl[1]) if pl[0] == "toxic" else pl[0], ident(old_t)))
+                    listed = [ident(t) for t in now.get(segs[1], {"toxics": []})["toxics"]]
+                    if listed != [ident(t) for t in known[segs[1]]["toxics"]]:
+                        return (i, "update of toxic %r changed which toxics are listed: %s -> %s" % (segs[3], [ident(t) for t in known[segs[1]]["toxics"]], listed))
             if q["method"] == "POST" and len(segs) == 3 and segs[2] == "toxics" and segs[1] in known and st == 409:
                 given = {k.lower(): v for k, v in q["json"][1]} if q["json"] and q["json"][0] == "obj" else {}
                 nm = given.get("name")
